@@ -230,8 +230,23 @@ def run(p, report, tier):
         guard = [n for n in ast.walk(f.node) if isinstance(n, ast.If) and "isnan" in ast.unparse(n.test)
                  and ".all()" not in ast.unparse(n.test) and "np.all(" not in ast.unparse(n.test)
                  and any(isinstance(s, ast.Raise) for s in n.body)]
-        pre = [c for c in deleg_calls(f.node) if c.args and isinstance(c.args[0], ast.Name)]
+        def _self_helper_call(e):
+            return isinstance(e, ast.Call) and isinstance(e.func, ast.Attribute) and isinstance(e.func.value, ast.Name) \
+                and e.func.value.id == "self" and ci.methods.get(e.func.attr) is not None
+
+        def _helper_guards_block(hm):
+            ht = FuncTree(hm.node)
+            hg = [n for n in ast.walk(hm.node) if isinstance(n, ast.If) and "isnan" in ast.unparse(n.test)
+                  and ".all()" not in ast.unparse(n.test) and "np.all(" not in ast.unparse(n.test)
+                  and any(isinstance(s_, ast.Raise) for s_ in n.body)]
+            rets = [n for n in ast.walk(hm.node) if isinstance(n, ast.Return) and isinstance(n.value, ast.Name)]
+            return bool(hg and rets and all(dominates(ht, hg[0], r_) and r_.value.id in names_in(hg[0].test) for r_ in rets))
+
+        pre = [c for c in deleg_calls(f.node) if c.args and (isinstance(c.args[0], ast.Name) or _self_helper_call(c.args[0]))]
         def guarded(c):
+            if _self_helper_call(c.args[0]):
+                # the block is produced (and checked) by a private helper whose value is passed on directly
+                return _helper_guards_block(ci.methods[c.args[0].func.attr])
             blk = c.args[0].id
             if guard and dominates(tree, guard[0], tree.stmt_of(c)) and blk in names_in(guard[0].test):
                 return True
@@ -387,6 +402,63 @@ def run(p, report, tier):
                 "pre-allocated with the dtype of the OLD array (`empty_like(old)`) truncates added fractional weights / "
                 "longer string labels when they are stored into it, and the retrained reference sees other data", floor=3)
     check_promoting_growth(p, report)
+    report.rule("R19.16", "predictions are returned for the indices AS REQUESTED (order and repeats): nothing on the prediction "
+                "paths of the index wrapper (predict / predict_proba / predict_freq and the helpers they call on self) "
+                "canonicalises `idx` - check_indices with its default unique=True sorts and de-duplicates, so the speed-up path "
+                "would answer for other rows than the plain path", floor=3)
+    icw16 = p.get_class("IndexClassifierWrapper")
+    for mn16 in ("predict", "predict_proba", "predict_freq"):
+        f16 = icw16.methods.get(mn16) if icw16 else None
+        if f16 is None:
+            raise AnalysisError(f"IndexClassifierWrapper.{mn16} vanished")
+        todo, seen16, bad16 = [f16], set(), None
+        while todo:
+            g = todo.pop()
+            if g.qual in seen16:
+                continue
+            seen16.add(g.qual)
+            for c in ast.walk(g.node):
+                if not isinstance(c, ast.Call):
+                    continue
+                cn = (c01.callname(c) or "").split(".")[-1]
+                if cn in ("check_indices",):
+                    uq = next((k.value for k in c.keywords if k.arg == "unique"), None)
+                    if uq is None or (isinstance(uq, ast.Constant) and uq.value is True):
+                        bad16 = bad16 or (g, c)
+                if cn in ("unique", "sort", "sorted") and c.args and isinstance(c.args[0], ast.Name) \
+                        and c.args[0].id in [a for a in g.params() if a != "self"][:1]:
+                    bad16 = bad16 or (g, c)
+                if isinstance(c.func, ast.Attribute) and isinstance(c.func.value, ast.Name) and c.func.value.id == "self":
+                    h = icw16.methods.get(c.func.attr)
+                    if h is not None and h.name not in ("fit", "partial_fit", "precompute"):
+                        todo.append(h)
+        report.add("R19.16", f16.qual, "the requested indices are used in the caller's order, with repeats",
+                   f"{f16.file}:{(bad16[1] if bad16 else f16.node).lineno}", bad16 is None,
+                   detail=f"{len(seen16)} method(s) on the prediction path inspected" if bad16 is None else
+                   f"`{ast.unparse(bad16[1])[:60]}` in {bad16[0].qual} sorts / de-duplicates the requested indices: the rows returned "
+                   f"no longer correspond to the positions the caller asked for")
+    report.rule("R19.17", "every call of partial_fit takes effect: on every path to a return of IndexClassifierWrapper.partial_fit "
+                "the wrapped model was updated (clf_.partial_fit / self.fit / clf_.fit) - an early return for 'uninformative' "
+                "batches leaves out samples the retrained reference contains (an all-missing batch still replaces the labels of "
+                "known samples under enforce_unique_samples and still counts as neighbours / window entries)", floor=1)
+    pf17 = icw16.methods.get("partial_fit")
+    if pf17 is None:
+        raise AnalysisError("IndexClassifierWrapper.partial_fit vanished")
+
+    class _Upd(MustAnalysis):
+        def gen(self, stmt):
+            for c in ast.walk(stmt) if not isinstance(stmt, (ast.If, ast.For, ast.While, ast.Try, ast.With)) else []:
+                if isinstance(c, ast.Call) and isinstance(c.func, ast.Attribute) and c.func.attr in ("partial_fit", "fit") \
+                        and "self" in ast.unparse(c.func.value):
+                    return ("updated",)
+            return ()
+    u17 = _Upd(pf17.node).run()
+    bad17 = [(rn, st) for (rn, states) in u17.returns if rn is not None for st in states if "updated" not in st.tokens]
+    report.add("R19.17", pf17.qual, "the model is updated on every path to a return", f"{pf17.file}:{(bad17[0][0] if bad17 else pf17.node).lineno}",
+               not bad17, detail=f"{len(u17.returns)} return(s)" if not bad17 else
+               f"`{norm_stmt(bad17[0][0], 40)}` is reached without any update of the wrapped model on the path where "
+               f"{describe(bad17[0][1].facts) or 'always'}: the samples of this call are missing from the model that the "
+               f"retrained reference classifier would contain")
     report.rule("R19.15", "the stored training triple (idx_, y_, sample_weight_ and their base_* twins) is only ever replaced "
                 "as a whole, never written element-wise: fit keeps the arrays it is given without copying them, so a "
                 "subscript store would relabel the caller's own label / weight arrays (and the constructor's) in place", floor=2)
